@@ -13,6 +13,7 @@ import os
 
 import gridlib as gl
 import rltie
+import c01global
 import vlib
 
 LEVEL = "proof"
@@ -165,6 +166,8 @@ def run(res, tier, seed, replay_script=None):
     res.coverage["faithful_dagup_model"] = {"props_file": "coq/Props/Properties_C01_up.v", "obligations": props_up["obligations"], "discharged": props_up["discharged"],
                                             "theorems": props_up["theorems"], "print_assumptions": props_up["assumptions"]}
     proof_broken = (not props["ok"]) or bool(res.coverage["forbidden_tokens"]) or (not props_up["ok"])
+    # Global grids with nested rules: the combination surrogate reproduces the values at every grid point (unbounded; Properties_C01_global.v)
+    c01global.run(res)
     runner = vlib.ocaml_runner("corefast") if ok_ext else None
     drv = vlib.build_driver("tsgdrv")
     wd = os.path.join(vlib.BUILD, "work", PID)
